@@ -75,6 +75,9 @@ type replayCase struct {
 	Vector  map[string][]interface{} `json:"vector"`
 	Tier    int                      `json:"tier"`
 	Params  map[string]int           `json:"params"`
+	Repeat   int                     `json:"repeat"`
+	WantKind string                  `json:"want_kind"`
+	WantMsg  string                  `json:"want_msg"`
 }
 
 type replayEvent struct{ Kind, Msg string }
@@ -252,11 +255,28 @@ func cmdCheck(args []string) int {
 	var knownLines, violLines, inconLines []string
 	byPkg := map[string][]replayCase{}
 	for _, r := range reports {
+		rep := 1
+		for _, u := range r.Uses {
+			if strings.HasPrefix(u, "tasks:") {
+				rep = 40 // schedule-dependent: the Go runtime picks among ready select cases
+			}
+		}
 		for label, vec := range r.Witness {
-			byPkg[r.PkgDir] = append(byPkg[r.PkgDir], replayCase{ID: "w/" + r.Name + "/" + label, Harness: r.Name, Vector: vec, Tier: tierN, Params: toIntMap(pm)})
+			byPkg[r.PkgDir] = append(byPkg[r.PkgDir], replayCase{ID: "w/" + r.Name + "/" + label, Harness: r.Name, Vector: vec, Tier: tierN, Params: toIntMap(pm),
+				Repeat: rep, WantKind: "REACH", WantMsg: label})
 		}
 		for _, v := range r.Violations {
-			byPkg[r.PkgDir] = append(byPkg[r.PkgDir], replayCase{ID: "v/" + r.Name + "/" + v.Label, Harness: r.Name, Vector: v.Vector, Tier: tierN, Params: toIntMap(pm)})
+			c := replayCase{ID: "v/" + r.Name + "/" + v.Label, Harness: r.Name, Vector: v.Vector, Tier: tierN, Params: toIntMap(pm), Repeat: rep}
+			switch v.Kind {
+			case "assert":
+				c.WantKind, c.WantMsg = "ASSERT-FAIL", v.Label
+			case "panic":
+				c.WantKind = "PANIC"
+			case "deadlock":
+				c.WantKind = "TIMEOUT"
+				c.Repeat = 1
+			}
+			byPkg[r.PkgDir] = append(byPkg[r.PkgDir], c)
 		}
 	}
 	events := map[string][]replayEvent{}
@@ -398,7 +418,31 @@ func findFinding(fs []Finding, prop, key string) *Finding {
 	return nil
 }
 
-func witnessOK(ev []replayEvent, label string) (bool, string) {
+func witnessOK(all []replayEvent, label string) (bool, string) {
+	// split into attempts; any attempt that reaches the label cleanly counts
+	var attempts [][]replayEvent
+	for _, e := range all {
+		if e.Kind == "ATTEMPT" {
+			attempts = append(attempts, nil)
+			continue
+		}
+		if len(attempts) == 0 {
+			attempts = append(attempts, nil)
+		}
+		attempts[len(attempts)-1] = append(attempts[len(attempts)-1], e)
+	}
+	why := "no output"
+	for _, ev := range attempts {
+		ok, w := witnessAttemptOK(ev, label)
+		if ok {
+			return true, ""
+		}
+		why = w
+	}
+	return false, why
+}
+
+func witnessAttemptOK(ev []replayEvent, label string) (bool, string) {
 	reached := false
 	for _, e := range ev {
 		switch e.Kind {
